@@ -2,6 +2,7 @@ package main
 
 import (
 	"fmt"
+	"go/token"
 	"go/types"
 	"sort"
 	"strings"
@@ -479,6 +480,185 @@ func c11StoredEveryRound(r *Run, fn *ssa.Function, pc *ssa.Call, st *ssa.Store, 
 	return !reach.Blocks[in.Block()] || in.Block() == pc.Block()
 }
 
+// c11AppendedEveryRound decides "result i is the certificate of element i and the result is as long
+// as the list" for a result that grows by append: parseCertificate runs on list[k] where k counts the
+// rounds of a loop `for k < len(list)` from 0 in steps of 1; the result is a loop-carried value that
+// is empty when the loop is entered and, on every way back to the loop head, is append(previous,
+// that round's certificate) — exactly one element per round, so it has k elements when round k
+// starts; no round reaches the loop head without that append; and every success return hands back
+// the loop-carried value and can only be reached through the exit of the loop head (k = len(list)).
+func c11AppendedEveryRound(r *Run, fn *ssa.Function, pc *ssa.Call, ia *ssa.IndexAddr, list ssa.Value) bool {
+	// the round counter and its loop head
+	var cnt *ssa.Phi
+	var next ssa.Value
+	isStep := func(v ssa.Value, ph *ssa.Phi) bool {
+		b, ok := v.(*ssa.BinOp)
+		if !ok || b.Op != token.ADD || b.X != ssa.Value(ph) {
+			return false
+		}
+		k, ok := b.Y.(*ssa.Const)
+		return ok && k.Value != nil && k.Int64() == 1
+	}
+	var first int64
+	switch x := ia.Index.(type) {
+	case *ssa.BinOp: // range loop: the element index is (pre-index + 1), the pre-index starts at -1
+		if ph, ok := x.X.(*ssa.Phi); ok && isStep(x, ph) && ph.Block() == x.Block() {
+			cnt, next, first = ph, x, -1
+		}
+	case *ssa.Phi: // counted loop: starts at 0
+		cnt, first = x, 0
+	}
+	if cnt == nil {
+		return false
+	}
+	head := cnt.Block()
+	entry := map[int]bool{} // predecessor edges of the head that enter the loop
+	for i, ed := range cnt.Edges {
+		if k, ok := ed.(*ssa.Const); ok && k.Value != nil && k.Int64() == first {
+			entry[i] = true
+			continue
+		}
+		if next != nil && ed == next || next == nil && isStep(ed, cnt) {
+			continue
+		}
+		return false
+	}
+	if len(entry) == 0 || len(entry) == len(cnt.Edges) {
+		return false
+	}
+	// the head leaves the loop exactly when the counter reaches len(list)
+	br, ok := head.Instrs[len(head.Instrs)-1].(*ssa.If)
+	if !ok {
+		return false
+	}
+	cond, ok := br.Cond.(*ssa.BinOp)
+	if !ok || cond.Op != token.LSS || cond.X != ia.Index {
+		return false
+	}
+	if lc, ok := cond.Y.(*ssa.Call); !ok || CalleeOf(lc) != "len" || len(lc.Call.Args) != 1 || lc.Call.Args[0] != list {
+		return false
+	}
+	if li, ok := list.(ssa.Instruction); ok && li.Block() != nil && !(li.Block() != head && li.Block().Dominates(head)) {
+		return false // the list must be fixed before the loop starts
+	}
+	body := head.Succs[0]
+	inLoop := map[*ssa.BasicBlock]bool{} // reachable from the body without passing the head
+	var dfs func(b *ssa.BasicBlock, seen map[*ssa.BasicBlock]bool)
+	dfs = func(b *ssa.BasicBlock, seen map[*ssa.BasicBlock]bool) {
+		if b == head || seen[b] {
+			return
+		}
+		seen[b] = true
+		for _, sb := range b.Succs {
+			dfs(sb, seen)
+		}
+	}
+	dfs(body, inLoop)
+	if li, ok := list.(ssa.Instruction); ok && inLoop[li.Block()] {
+		return false
+	}
+	// the append of this round's certificate
+	var ap *ssa.Call
+	for _, ref := range *pc.Referrers() {
+		ex, ok := ref.(*ssa.Extract)
+		if !ok || ex.Index != 0 {
+			continue
+		}
+		for _, r2 := range *ex.Referrers() {
+			st, ok := r2.(*ssa.Store)
+			if !ok || st.Val != ssa.Value(ex) {
+				continue
+			}
+			ea, ok := st.Addr.(*ssa.IndexAddr)
+			if !ok {
+				continue
+			}
+			arr, ok := ea.X.(*ssa.Alloc)
+			if !ok {
+				continue
+			}
+			if at, ok := arr.Type().Underlying().(*types.Pointer).Elem().Underlying().(*types.Array); !ok || at.Len() != 1 {
+				continue
+			}
+			if sts := storesInto(fn, arr); len(sts) != 1 || sts[0] != st {
+				continue
+			}
+			for _, r3 := range *arr.Referrers() {
+				sl, ok := r3.(*ssa.Slice)
+				if !ok || sl.Low != nil || sl.High != nil || sl.Max != nil {
+					continue
+				}
+				for _, r4 := range *sl.Referrers() {
+					c, ok := r4.(*ssa.Call)
+					if !ok || CalleeOf(c) != "append" || len(c.Call.Args) != 2 || c.Call.Args[1] != ssa.Value(sl) {
+						continue
+					}
+					if ap != nil && ap != c {
+						return false
+					}
+					if !executesBefore(st, c) || st.Block() != c.Block() {
+						return false
+					}
+					ap = c
+				}
+			}
+		}
+	}
+	if ap == nil || !inLoop[ap.Block()] || !inLoop[pc.Block()] {
+		return false
+	}
+	// the loop-carried result: empty on entry, the append on every way back
+	acc, ok := ap.Call.Args[0].(*ssa.Phi)
+	if !ok || acc.Block() != head {
+		return false
+	}
+	for i, ed := range acc.Edges {
+		if entry[i] {
+			switch x := ed.(type) {
+			case *ssa.Const:
+				if !isNilConst(x) {
+					return false
+				}
+			case *ssa.MakeSlice:
+				if k, ok := x.Len.(*ssa.Const); !ok || k.Value == nil || k.Int64() != 0 {
+					return false
+				}
+			default:
+				return false
+			}
+			continue
+		}
+		if ed != ssa.Value(ap) {
+			return false
+		}
+	}
+	// one append per round: the append is not reached again before the head is
+	again := map[*ssa.BasicBlock]bool{}
+	for _, sb := range ap.Block().Succs {
+		dfs(sb, again)
+	}
+	if again[ap.Block()] {
+		return false
+	}
+	// no round goes on to the next without the append
+	r.Valuations++
+	reach := r.D.Walk(fn, Sigma{}, pc.Block(), map[*ssa.BasicBlock]bool{ap.Block(): true})
+	if reach.Blocks[head] {
+		return false
+	}
+	// what is returned is the loop-carried result after the loop has run to its end
+	succ := successReturns(fn)
+	if len(succ) == 0 {
+		return false
+	}
+	for _, ret := range succ {
+		if feasibleValue(ret.(*ssa.Return).Results[0]) != ssa.Value(acc) || inLoop[ret.Block()] {
+			return false
+		}
+	}
+	return true
+}
+
 func uniq(ss []string) []string {
 	var out []string
 	for i, s := range ss {
@@ -579,6 +759,9 @@ func c11Siblings(r *Run, pairs []laxPair) {
 					}
 				}
 			}
+		}
+		if ld, ok := arg.(*ssa.UnOp); ok && !okres {
+			okres = c11AppendedEveryRound(r, many, pcn, ld.X.(*ssa.IndexAddr), list)
 		}
 		r.Check("ParseCertificates:result-i-is-certificate-i", okres, r.Where(pcn), "ret[i] ← parseCertificate(v[i]) with len(ret) = len(v) in every round that goes on to the next, and ret is what is returned")
 	}
